@@ -60,6 +60,9 @@ def cases(tier, seed):
             for ts in itertools.product(["datetime", "string"], repeat=k):
                 fields = [[t, n] for t, n in zip(ts, sel)]
                 yield {"kind": "ts", "rec": mk("t/rec", fields, 0, "src"), "none": None}
+                if k <= 2:
+                    for pre in ("get_all_fields", "grouped", "definition"):
+                        yield {"kind": "ts", "rec": mk("t/pre%d" % len(fields), fields, 0, "src"), "none": None, "prelude": pre}
                 dts = [i for i, (t, _) in enumerate(fields) if t == "datetime"]
                 if dts:
                     r = mk("t/rec", fields, 0, "src")
@@ -181,6 +184,18 @@ def run_ts(case):
     before = obs(rec)
     fields = case["rec"]["fields"]
     dts = [n for t, n in fields if t == "datetime"]
+    # things other code does with the record's descriptor before the expansion (a grouped view, a definition dump, a writer)
+    from flow.record import GroupedRecord as _G
+
+    pre = case.get("prelude")
+    if pre == "get_all_fields":
+        rec._desc.get_all_fields()
+    elif pre == "grouped":
+        _G("t/g", [rec])
+    elif pre == "definition":
+        rec._desc.definition()
+    if [n for n in rec._desc.fields] != [n for _, n in fields]:
+        viol.append(("C15:ts:descriptor-fields-changed-by-%s" % pre, case, {"fields": list(rec._desc.fields)}))
     try:
         outs = list(iter_timestamped_records(rec))
     except Exception as e:  # noqa: BLE001
@@ -380,9 +395,32 @@ def run_rewrite(case):
     D2 = rs("w/rec", [["string", "a"], ["string", "owner"], ["varint", "mode"]], ["'aa'", "'root'", "420"], _source="'src2'")
     rw = RecordFieldRewriter(list(fl), list(ex))
     outs = []
-    for label, spec in (("D", D), ("D1", D1), ("D2", D2), ("D", D)):
+    GA = {"group": "w/grp", "members": [rs("w/p", [["string", "a"], ["varint", "n"]], ["'ga'", "1"]), rs("w/q", [["datetime", "t"]], ["dt(2020,1,1,tz=UTC)"])]}
+    GB = {"group": "w/grp", "members": [rs("w/r", [["string", "owner"]], ["'gb'"]), rs("w/s", [["string", "a"], ["varint", "mode"]], ["'x'", "7"])]}
+    for label, spec in (("D", D), ("D1", D1), ("D2", D2), ("D", D), ("GA", GA), ("GB", GB), ("GA", GA)):
         rec = recs.build_record(spec)
         before = obs(rec)
+        if "group" in spec:
+            # a grouped record is rewritten through its flat view
+            dfields = [[t, n] for t, n in rec._desc.get_field_tuples()]
+            names = [n for _, n in dfields]
+            keep = ([n for i, n in enumerate([x for x in fl if x not in ex and x in names]) if n not in [x for x in fl if x not in ex and x in names][:i]] if fl
+                    else [n for n in names if n not in ex])
+            try:
+                out = rw.rewrite(rec)
+                got_fields = [list(t) for t in out._desc.get_field_tuples()]
+                tmap = {n: t for t, n in dfields}
+                if got_fields != [[tmap[n], n] for n in keep]:
+                    viol.append(("C15:rewrite:fields:%s:grouped" % label, case, {"got": got_fields, "want": [[tmap[n], n] for n in keep]}))
+                else:
+                    for n in keep:
+                        if obs(getattr(out, n)) != obs(getattr(rec, n)):
+                            viol.append(("C15:rewrite:value-changed:%s:grouped" % label, case, {"field": n}))
+                            break
+                outs.append("ok")
+            except Exception as e:  # noqa: BLE001
+                viol.append(("C15:rewrite:raises-%s:%s:grouped" % (type(e).__name__, label), case, {"error": repr(e)[:200]}))
+            continue
         dfields = spec["fields"]
         names = [n for _, n in dfields]
         if fl:
